@@ -258,6 +258,51 @@ def run_tree(ctx, rec, tools, srcdir, name, base, order, rng, committed_sha):
     return {"root": root, "name": name, "raw": raw, "listdirs": nld, "invocations": len(inv), "wrote": wrote, "wall_s": round(time.time() - t, 1)}
 
 
+def run_versioned(ctx, rec, tools, srcdir, base):
+    """`wuffs gen -version=0.4.0 base` in a scratch tree that IS a git repository (a versioned release embeds the
+    revision, the commit count and the commit DATE of HEAD): the release file must not depend on the caller's
+    time zone.  The commit is made at 23:30 UTC, so that any zone east of UTC+0:30 names the next day.  POSIX TZ
+    strings are used (no tz database needed)."""
+    root = os.path.join(base, "vtree")
+    os.makedirs(root)
+    shutil.copytree(os.path.join(srcdir, "std"), os.path.join(root, "std"))
+    shutil.copy(os.path.join(srcdir, "wuffs-root-directory.txt"), root)
+    genv = dict(os.environ, GIT_AUTHOR_DATE="2024-03-10T23:30:00+0000", GIT_COMMITTER_DATE="2024-03-10T23:30:00+0000",
+                GIT_CONFIG_GLOBAL="/dev/null", GIT_CONFIG_SYSTEM="/dev/null", HOME=root)
+    for cmd in (["git", "init", "-q"], ["git", "add", "wuffs-root-directory.txt"],
+                ["git", "-c", "user.name=verif", "-c", "user.email=verif@example.invalid", "commit", "-q", "-m", "c20"]):
+        r = subprocess.run(cmd, cwd=root, env=genv, capture_output=True, text=True, timeout=120)
+        if r.returncode != 0:
+            raise ToolingError("scratch git repository: %s failed: %s" % (" ".join(cmd), (r.stdout + r.stderr)[-500:]))
+    head = subprocess.run(["git", "rev-parse", "HEAD"], cwd=root, env=genv, capture_output=True, text=True, timeout=60).stdout.strip()
+    n = 0
+    shas = set()
+    for tz in (None, "UTC0", "JST-9", "LINT-14", "PST8PDT", "NST3:30"):
+        env = dict(ctx.env)
+        env.pop("TZ", None)
+        if tz is not None:
+            env["TZ"] = tz
+        env["PATH"] = os.path.dirname(tools["wuffs-c"]) + ":" + env.get("PATH", "")
+        shutil.rmtree(os.path.join(root, "gen"), ignore_errors=True)
+        shutil.rmtree(os.path.join(root, "release"), ignore_errors=True)
+        r = subprocess.run([tools["wuffs"], "gen", "-version=0.4.0", "base"], cwd=root, env=env, capture_output=True, text=True, timeout=600)
+        outp = os.path.join(root, "release", "c", "wuffs-v0.4.c")
+        if r.returncode != 0 or not os.path.exists(outp):
+            raise ToolingError("`wuffs gen -version=0.4.0 base` failed in the scratch git tree:\n" + (r.stdout + r.stderr)[-2000:])
+        out = read(outp)
+        if head.encode() not in out:
+            raise ToolingError("the versioned release file does not embed the scratch repository's revision %s" % head)
+        envc = "wuffs-gen-version:TZ=%s" % tz
+        rec.envs[envc] = {"tool": "wuffs gen -version=0.4.0 base", "TZ": tz, "head": head, "commit_date": "2024-03-10T23:30:00+0000"}
+        e = {"k": "gen", "pkg": "(wuffs gen -version=0.4.0 base: release file)", "files": ["gen/c/wuffs-base.c"], "src": head, "env": envc,
+             "sha": "rc0:" + sha256(out)}
+        rec.add(e)
+        save_output(ctx, rec, e, out)
+        shas.add(e["sha"])
+        n += 1
+    return {"runs": n, "distinct": len(shas)}
+
+
 def tree_digest(d):
     h = hashlib.sha256()
     for dp, dn, fn in sorted(os.walk(d)):
@@ -466,6 +511,8 @@ def _run(ctx, rec, tools, axgen, srcdir, shm, thorough, R, NGEN, rng, committed_
     with concurrent.futures.ThreadPoolExecutor(max_workers=len(plan)) as ex:
         futs = [ex.submit(run_tree, ctx, rec, tools, srcdir, n, b, o, __import__("random").Random(rng.random()), committed_snap) for n, b, o in plan]
         trees = [f.result() for f in futs]
+    vres = run_versioned(ctx, rec, tools, srcdir, disk)
+    ctx.log("versioned release (scratch git repository, commit at 23:30 UTC) under %d TZ settings: %d distinct output(s)" % (vres["runs"], vres["distinct"]))
     raw_varied = 0
     dirs = sorted(trees[0]["raw"])
     for d in dirs:
